@@ -144,3 +144,26 @@ Definition anchors_for (h : N) (anchors : list (Z * list N)) : list Z :=
 
 Definition P_timed_for (hs : hook_settings) (anchors : list (Z * list N)) (starts : list (N * Z)) : bool :=
   forallb (fun h => P_hook_anchored (settings_of hs h) (anchors_for h anchors) (starts_of h starts)) (map fst hs).
+
+(* ---- hooks of every shape ----
+   "For a hook configured with executionMinInterval I and executionBurst B, the number of its
+    queued executions started within any time window of length T never exceeds B + T/I".
+   I and B are the two numbers written in the hook's `settings`, and the sentence names nothing
+   else of the hook's configuration: how many kubernetes bindings the hook declares (each of
+   them runs a Synchronization at start-up, the bindings of one group share one run, a binding
+   with executeHookOnSynchronization: false runs none), how many schedule bindings, which
+   groups and queues - none of it enters the bound.  So for a hook of ANY shape the windows are
+   judged with the CONFIGURED B:
+     - the windows that begin at the instant the operator is started (nothing ran before it):
+       the Synchronization runs of the start-up, back to back, are queued executions like any
+       other;
+     - the windows that begin at an instant at which the operator was idle - in particular
+       after an idle period of any length: however long nothing happened, the events that
+       arrive then (one by one or all at once) start at most B + T/I executions within T.
+   Observable: the settings written into each hook's configuration, the instant [boot] taken
+   before the operator was started, instants [anchors] at which it was found idle, and the
+   execution starts (hook, instant at which the start was seen - late, never early), in the
+   order they were seen.  The judgement is the anchored one ([anchored_ok], sound for instants
+   observed late: C18_late_observation_sound). *)
+Definition P_shape (hs : hook_settings) (boot : Z) (anchors : list Z) (starts : list (N * Z)) : bool :=
+  P_timed hs (boot :: anchors) starts.
